@@ -255,6 +255,16 @@ def isolation_cases(ctx, n):
                 labels = [LabelExpression("lab", None, e)] if as_label else []
                 defs.append(MetricDefinition("m%d" % i, "GAUGE", labels, "a" if as_label else e))
             action = LocationAction("tp-m", None, {"metrics": defs, "fire_count": "-1", "fire_period": "0"}, LocationAction.ActionType.Metric)
+            # baseline: the same definitions with every expression harmless.  If THAT already loses a metric, reporting is broken
+            # for another reason (C17) and nothing can be attributed to a failing expression.
+            base_defs = [MetricDefinition("m%d" % i, "GAUGE", [LabelExpression("lab", None, "a")] if as_label else [], "a") for i in range(len(exprs))]
+            base_world = e2.World(logger=False, spans=0, metrics=1)
+            base_log, _ = hit(base_world, LocationAction("tp-m", None, {"metrics": base_defs, "fire_count": "-1", "fire_period": "0"},
+                                                         LocationAction.ActionType.Metric))
+            base_world.clear_pending()
+            if len([1 for w, _t, _i, _p in base_log if w == "metric"]) != len(exprs):
+                ctx.skip("metric reporting loses metrics even when no expression fails (C17): isolation of expressions cannot be examined")
+                continue
             log, exc = hit(world, action)
             calls = {p["name"]: p for w, _t, _i, p in log if w == "metric"}
             j = dict(kind="metric " + ("labels" if as_label else "values"), expressions=exprs)
